@@ -4,11 +4,12 @@
    directives of our own. *)
 Require Extraction.
 Require Import ExtrOcamlBasic.
-From SF Require Import Base.Prelude Core.Events Cbor.Spec Cbor.Enc Cbor.Parse Ubjson.Spec Ubjson.Enc Ubjson.Img Ubjson.Parse Base.Utf8 Json.Enc Json.Parse Json.Spec Gotype.Lru Gotype.Types Gotype.Fold Gotype.FoldSpec Gotype.Conv Gotype.Unfold Gotype.UnfoldSpec.
+From SF Require Import Base.Prelude Core.Events Core.Visitors Cbor.Spec Cbor.Enc Cbor.Parse Ubjson.Spec Ubjson.Enc Ubjson.Img Ubjson.Parse Base.Utf8 Json.Enc Json.Parse Json.Spec Gotype.Lru Gotype.Types Gotype.Fold Gotype.FoldSpec Gotype.Conv Gotype.Unfold Gotype.UnfoldSpec.
 Definition nonfinite_b (w bits : Z) : Z := if nonfinite w bits then 1 else 0.
 Extraction Language OCaml.
 Extraction "sfmodel.ml"
   lru_init lru_run spec_run json_decode json_decode_all fold_value emit_all spec_fold spec_supported unfold_value zero_of conv conv_defined ucc_type generic omit_view deep_eq
+  eo_observe
   stream_tree parse_tree wf_tree value_of cv cvalue_eqb contract_ok expand adapter sink0 s_log btype_code
   cbor_decode cbor_decode_all cbor_run cenc0 w_chunks
   run_parse run_chunks dec_next cparser0
